@@ -1075,6 +1075,37 @@ func ruleMust(c *Ctx) {
 		c.site(1)
 		c.ok("assert|none", "", "", "no unchecked type assertion in hand-written code")
 	}
+	// a slice made to be filled while ranging over a string is indexed by byte offsets: its length must be len(string)
+	nIdx := 0
+	for _, fn := range fns {
+		allInstrs(fn, func(in ssa.Instruction) {
+			ia, ok := in.(*ssa.IndexAddr)
+			if !ok {
+				return
+			}
+			ex, ok := ia.Index.(*ssa.Extract)
+			if !ok || ex.Index != 1 {
+				return
+			}
+			nx, ok := ex.Tuple.(*ssa.Next)
+			if !ok || !nx.IsString {
+				return
+			}
+			mk, ok := ia.X.(*ssa.MakeSlice)
+			if !ok {
+				return
+			}
+			rng, _ := nx.Iter.(*ssa.Range)
+			nIdx++
+			c.site(1)
+			good := false
+			if call, ok := mk.Len.(*ssa.Call); ok && calleeName(&call.Call) == "builtin.len" && rng != nil && call.Call.Args[0] == rng.X {
+				good = true
+			}
+			c.check(good, "index|"+fname(fn)+"|string-range", c.pos(ia.Pos()), fname(fn), "a slice indexed by the byte offsets of a string has the string's byte length", fname(fn)+": a slice is filled at the byte offsets of a ranged string but is not made with len(string) elements: a multi-byte character followed by another one indexes past the end and crd panics")
+		})
+	}
+	_ = nIdx
 	// P0: functions that reach a panic primitive directly
 	p0 := map[string]*ssa.Function{}
 	for _, fn := range fns {
@@ -1534,7 +1565,30 @@ var reviewedErrDrops = map[string]string{
 	"desc.Chord.Describe -> chord.Mapper.GetChordAttributes": "",
 }
 
+// checkScannerErr: a bufio.Scanner loop ends silently on an over-long line or a read error; whoever scans must ask Err().
+func (c *Ctx) checkScannerErr() {
+	for _, fn := range c.srcFuncs() {
+		scans := callsTo(fn, "bufio.Scanner.Scan")
+		if len(scans) == 0 {
+			continue
+		}
+		c.site(1)
+		root := fn
+		for root.Parent() != nil {
+			root = root.Parent()
+		}
+		asked := false
+		for _, f := range withClosures(root) {
+			if len(callsTo(f, "bufio.Scanner.Err")) > 0 {
+				asked = true
+			}
+		}
+		c.check(asked, fname(fn)+" -> bufio.Scanner.Err", c.pos(scans[0].Pos()), fname(fn), "the scanner's error is asked for after the loop", fname(fn)+" reads with a bufio.Scanner but never calls Err(): a line longer than the scanner's buffer (64 KiB) or a read error ends the loop silently and the rest of the input is dropped with exit status 0")
+	}
+}
+
 func ruleErrDrop(c *Ctx) {
+	c.checkScannerErr()
 	for _, fn := range c.srcFuncs() {
 		for _, ci := range callsIn(fn) {
 			call, ok := ci.(*ssa.Call)
